@@ -313,13 +313,11 @@ Section BinFacts.
           -- destruct kd; cbn in *; congruence.
           -- intros _ _ s' Hs'. rewrite Hrel in Hs'. rewrite <- Hsv. symmetry. apply eq_trans_f; auto.
           -- intros _. split; [reflexivity|]. now rewrite Hrel.
-          -- intros C; contradiction.
         * (* another value: KStrict raises, KSingle overwrites *)
           destruct kd; try discriminate. inversion H; subst; clear H.
           destruct (set_one_facts KSingle m key value W Hk (or_introl eq_refl)) as [F1 [F2 [F3 F4]]].
           post_split F1 F2 F3 F4 Hk; auto; try discriminate; try (intros; congruence).
           -- intros s' Hs'. inversion Hs'; subst. auto.
-          -- intros a Ha. inversion Ha. reflexivity.
       + (* key absent *)
         rewrite Hg in H.
         assert (Hm' : rem = None /\ add = Some value /\ m' = dset keq m key (one value)).
@@ -329,7 +327,6 @@ Section BinFacts.
         post_split F1 F2 F3 F4 Hk; auto; try discriminate; try (intros; congruence).
         * destruct kd; cbn in *; congruence.
         * intros _ _ s Hs. rewrite (rel_of_dget_none m key s Hg) in Hs. discriminate.
-        * intros a Ha. inversion Ha. reflexivity.
         * intros _ _. apply (rel_of_dget_none m key value Hg).
     - (* containers *)
       assert (Hc : (if hashes_values kd && negb (ahash value) then ARaise TypeErr
@@ -358,7 +355,6 @@ Section BinFacts.
           assert (F4 := soc_refl m').
           post_split F1 F2 F3 F4 Hk; auto; try discriminate; try (intros; congruence).
           -- intros _. split; [reflexivity|]. rewrite (rel_of_dget_some m' key b value Hg). exact Hmem.
-          -- intros C; contradiction.
         * assert (Hnd : nodup_eq aeq (items b ++ [value])).
           { apply nodup_app1; auto. specialize (Wn key). unfold items_of in Wn. now rewrite Hg in Wn. }
           destruct (set_bin_facts kd m key (mkBin (items b ++ [value]) []) W Hk Hnd) as [F1 [F2 F3]].
@@ -370,12 +366,492 @@ Section BinFacts.
             destruct (aeq value a); cbn; [now rewrite orb_true_r|now rewrite orb_false_r]. }
           assert (F4 := soc_dset_one m key (items b ++ [value])).
           post_split F1 F2' F3 F4 Hk; auto; try discriminate; try (intros; congruence).
-          -- intros a Ha. inversion Ha. reflexivity.
           -- intros _ _. rewrite (rel_of_dget_some m key b value Hg). exact Hmem.
       + inversion Hc; subst; clear Hc.
         destruct (set_one_facts kd m key value W Hk (or_intror Hg)) as [F1 [F2 [F3 F4]]].
         post_split F1 F2 F3 F4 Hk; auto; try discriminate; try (intros; congruence).
-        * intros a Ha. inversion Ha. reflexivity.
         * intros _ _. apply (rel_of_dget_none m key value Hg).
   Qed.
+  Lemma add_item_raise : forall kd (m : D) key value e,
+    add_item keq aeq khash ahash kfmt kd m key value = ARaise e ->
+    khash key = false \/ (hashes_values kd = true /\ ahash value = false) \/
+    (kd = KStrict /\ exists s, rel m key s = true /\ aeq s value = false).
+  Proof.
+    intros kd m key value e H. unfold add_item in H.
+    destruct (khash key); cbn [negb] in H; [|left; reflexivity]. right.
+    destruct kd; cbn [hashes_values andb] in H.
+    - destruct (dget keq m key) as [[[|s it] ca]|]; try discriminate. destruct (aeq s value); discriminate.
+    - right. split; [reflexivity|].
+      destruct (dget keq m key) as [[[|s it] ca]|] eqn:Hg; try discriminate.
+      destruct (aeq s value) eqn:E; [discriminate|]. exists s. split; [|exact E].
+      rewrite (rel_of_dget_some m key _ s Hg). cbn. now rewrite (eq_refl_b _ EA).
+    - left. destruct (ahash value); cbn in H; [|auto].
+      destruct (dget keq m key) as [b|]; [destruct (memb aeq value (items b))|]; discriminate.
+    - cbn in H. destruct (dget keq m key) as [b|]; [destruct (memb aeq value (items b))|]; discriminate.
+    - left. destruct (ahash value); cbn in H; [|auto].
+      destruct (dget keq m key) as [b|]; [destruct (memb aeq value (items b))|]; discriminate.
+  Qed.
+
+  Lemma remove_item_spec : forall kd (m : D) key value m',
+    wf kd m ->
+    remove_item keq aeq khash ahash kd m key value = Some m' ->
+    wf kd m' /\
+    (forall k a, rel m' k a = rel m k a && negb (keq key k && aeq value a)) /\
+    khash key = true /\ stable_or_cleared m m'.
+  Proof.
+    intros kd m key value m' W H. unfold remove_item in H.
+    destruct (khash key) eqn:Hk; cbn [negb] in H; [|discriminate].
+    pose proof W as [Wn [Ws Wh]].
+    assert (Hsame : m' = m -> rel m key value = false ->
+              wf kd m' /\ (forall k a, rel m' k a = rel m k a && negb (keq key k && aeq value a)) /\
+              true = true /\ stable_or_cleared m m').
+    { intros -> Hf. split; [exact W|split; [|split; [reflexivity|apply soc_refl]]].
+      intros k a. destruct (keq key k) eqn:E; cbn; [|now rewrite andb_true_r].
+      destruct (aeq value a) eqn:E2; cbn; [|now rewrite andb_true_r].
+      rewrite andb_false_r, <- (rel_congr_k m key k a E), <- (rel_congr_a m key value a E2). exact Hf. }
+    destruct (dget keq m key) as [b|] eqn:Hg.
+    2:{ inversion H; subst. apply Hsame; auto. apply rel_of_dget_none. exact Hg. }
+    destruct (is_single kd) eqn:Hsg.
+    - destruct (Ws eq_refl key b Hg) as [s Hs]. destruct b as [it ca]. cbn in Hs. subst it. cbn in H.
+      assert (Hrel : forall a, rel m key a = aeq s a).
+      { intros a. rewrite (rel_of_dget_some m key _ a Hg). cbn. destruct (aeq s a); reflexivity. }
+      destruct (aeq s value) eqn:Hsv; inversion H; subst; clear H.
+      + destruct (del_facts kd m key W) as [F1 [F2 F3]].
+        split; [exact F1|split; [|split; [reflexivity|apply soc_ddel]]].
+        intros k a. rewrite F2. destruct (keq key k) eqn:E; cbn; [|now rewrite andb_true_r].
+        rewrite <- (rel_congr_k m key k a E), Hrel, (eq_trans_f aeq EA s value a Hsv).
+        now destruct (aeq value a).
+      + apply Hsame; auto. rewrite Hrel. exact Hsv.
+    - destruct (hashes_values kd && negb (ahash value)); [discriminate|].
+      destruct (memb aeq value (items b)) eqn:Hmem.
+      2:{ inversion H; subst. apply Hsame; auto. erewrite rel_of_dget_some by exact Hg. exact Hmem. }
+      assert (Hnd : nodup_eq aeq (items b)).
+      { specialize (Wn key). unfold items_of in Wn. now rewrite Hg in Wn. }
+      destruct (remove_first aeq value (items b)) as [|x it] eqn:Hrf.
+      + inversion H; subst; clear H. destruct (del_facts kd m key W) as [F1 [F2 F3]].
+        split; [exact F1|split; [|split; [reflexivity|apply soc_ddel]]].
+        intros k a. rewrite F2. destruct (keq key k) eqn:E; cbn; [|now rewrite andb_true_r].
+        rewrite <- (rel_congr_k m key k a E), (rel_of_dget_some m key b a Hg).
+        pose proof (memb_remove_first aeq EA (items b) value a Hnd) as Hr. rewrite Hrf in Hr. cbn in Hr.
+        now rewrite <- Hr.
+      + inversion H; subst; clear H.
+        assert (Hnd2 : nodup_eq aeq (items (mkBin (x :: it) (@nil (sortspec * list A))))).
+        { cbn [items]. rewrite <- Hrf. apply nodup_remove_first; auto. }
+        destruct (set_bin_facts kd m key (mkBin (x :: it) []) W Hk Hnd2) as [F1 [F2 F3]].
+        { rewrite Hsg. discriminate. }
+        split; [exact F1|split; [|split; [reflexivity|apply soc_dset_one]]].
+        intros k a. rewrite F2. destruct (keq key k) eqn:E; cbn [items andb]; [|now rewrite andb_true_r].
+        rewrite <- (rel_congr_k m key k a E), (rel_of_dget_some m key b a Hg), <- Hrf.
+        apply memb_remove_first; auto.
+  Qed.
+
+  Lemma remove_item_raise : forall kd (m : D) key value,
+    remove_item keq aeq khash ahash kd m key value = None ->
+    khash key = false \/ (hashes_values kd = true /\ ahash value = false).
+  Proof.
+    intros kd m key value H. unfold remove_item in H.
+    destruct (khash key); cbn [negb] in H; [|left; reflexivity]. right.
+    destruct (dget keq m key) as [b|]; [|discriminate].
+    destruct (is_single kd).
+    - destruct (items b); [discriminate|]. destruct (aeq a value); discriminate.
+    - destruct (hashes_values kd); cbn in H.
+      + destruct (ahash value); cbn in H; [|auto].
+        destruct (memb aeq value (items b)); [destruct (remove_first aeq value (items b))|]; discriminate.
+      + destruct (memb aeq value (items b)); [destruct (remove_first aeq value (items b))|]; discriminate.
+  Qed.
+
+  Lemma remove_key_spec : forall kd (m : D) key m' removed,
+    wf kd m ->
+    remove_key keq khash m key = Some (m', removed) ->
+    wf kd m' /\
+    (forall k a, rel m' k a = rel m k a && negb (keq key k)) /\
+    removed = items_of keq m key /\ stable_or_cleared m m'.
+  Proof.
+    intros kd m key m' removed W H. unfold remove_key in H.
+    destruct m as [|p m0] eqn:Hm.
+    - inversion H; subst. split; [exact W|split; [|split; [reflexivity|apply soc_refl]]].
+      intros k a. reflexivity.
+    - rewrite <- Hm in *. clear Hm.
+      assert (H' : (if negb (khash key) then None else
+                     match dget keq m key with
+                     | None => Some (m, [])
+                     | Some b => Some (ddel keq m key, items b) end) = Some (m', removed)).
+      { exact H. }
+      clear H. destruct (khash key); cbn [negb] in H'; [|discriminate].
+      destruct (dget keq m key) as [b|] eqn:Hg; inversion H'; subst; clear H'.
+      + destruct (del_facts kd m key W) as [F1 [F2 F3]].
+        split; [exact F1|split; [|split; [|apply soc_ddel]]].
+        * intros k a. rewrite F2. destruct (keq key k); cbn; [now rewrite andb_false_r|now rewrite andb_true_r].
+        * unfold items_of. now rewrite Hg.
+      + split; [exact W|split; [|split; [|apply soc_refl]]].
+        * intros k a. destruct (keq key k) eqn:E; cbn; [|now rewrite andb_true_r].
+          rewrite andb_false_r, <- (rel_congr_k m' key k a E). apply (rel_of_dget_none m' key a Hg).
+        * unfold items_of. now rewrite Hg.
+  Qed.
 End BinFacts.
+
+(* ------------------------------------------------------------------------------------------- *)
+(* TwoWayMap                                                                                   *)
+
+Section TwoWayFacts.
+  Context {L R : Type}.
+  Variables (leq : L -> L -> bool) (req : R -> R -> bool) (lhash : L -> bool) (rhash : R -> bool).
+  Variables (lfmt : L -> bool) (rfmt : R -> bool).
+  Variables (lk rk : kind).
+  Hypothesis EL : equiv leq.
+  Hypothesis ER : equiv req.
+  Hypothesis HLH : forall a b, leq a b = true -> lhash a = lhash b.
+  Hypothesis HRH : forall a b, req a b = true -> rhash a = rhash b.
+
+  Notation T := (twm L R).
+  Definition fr (t : T) (l : L) (r : R) : bool := rel leq req (fwd t) l r.
+  Definition br (t : T) (r : R) (l : L) : bool := rel req leq (bwd t) r l.
+
+  (* forward and backward maps are mutually inverse (and both dictionaries well formed) *)
+  Definition tw_inv (t : T) : Prop :=
+    wf leq req lhash rk (fwd t) /\ wf req leq rhash lk (bwd t) /\ forall l r, fr t l r = br t r l.
+
+  Lemma tw_inv_empty : tw_inv (mkTwm [] []).
+  Proof.
+    split; [|split]; try (split; [|split]); cbn; intros; try exact I; try discriminate; reflexivity.
+  Qed.
+
+  Lemma fr_hash : forall t l r, tw_inv t -> fr t l r = true -> lhash l = true /\ rhash r = true.
+  Proof.
+    intros t l r [[_ [_ Wf]] [[_ [_ Wb]] C]] H. split.
+    - apply Wf. eapply rel_true_has_key. exact H.
+    - apply Wb. rewrite C in H. eapply rel_true_has_key. exact H.
+  Qed.
+
+  Lemma rm_fwd_ok : forall m l r, wf leq req lhash rk m -> lhash l = true ->
+    (hashes_values rk = true -> rhash r = true) ->
+    exists m', rm_fwd leq req lhash rhash rk m l r = (m', true) /\
+      wf leq req lhash rk m' /\
+      (forall k a, rel leq req m' k a = rel leq req m k a && negb (leq l k && req r a)) /\
+      stable_or_cleared leq m m'.
+  Proof.
+    intros m l r W Hl Hr. unfold rm_fwd.
+    destruct (remove_item leq req lhash rhash rk m l r) as [m'|] eqn:E.
+    - destruct (remove_item_spec leq req lhash rhash EL ER HLH rk m l r m' W E) as [F1 [F2 [F3 F4]]].
+      exists m'. auto.
+    - apply remove_item_raise in E. destruct E as [E|[E1 E]]; [congruence|]. rewrite (Hr E1) in E. discriminate.
+  Qed.
+
+  Lemma rm_bwd_ok : forall m r l, wf req leq rhash lk m -> (hashes_values lk = true -> lhash l = true) ->
+    rhash r = true ->
+    exists m', rm_bwd leq req lhash rhash lk m r l = (m', true) /\
+      wf req leq rhash lk m' /\
+      (forall k a, rel req leq m' k a = rel req leq m k a && negb (req r k && leq l a)) /\
+      stable_or_cleared req m m'.
+  Proof.
+    intros m r l W Hl Hr. unfold rm_bwd.
+    destruct (remove_item req leq rhash lhash lk m r l) as [m'|] eqn:E.
+    - destruct (remove_item_spec req leq rhash lhash ER EL HRH lk m r l m' W E) as [F1 [F2 [F3 F4]]].
+      exists m'. auto.
+    - apply remove_item_raise in E. destruct E as [E|[E1 E]]; [congruence|]. rewrite (Hl E1) in E. discriminate.
+  Qed.
+  (* the except-branch of insert restores the forward relation *)
+  Lemma insert_rollback : forall m left right fwd1 rrem radd,
+    wf leq req lhash rk m ->
+    add_post leq req lhash rhash rk m left right fwd1 rrem radd ->
+    let fwd2 := match radd with Some a => fst (rm_fwd leq req lhash rhash rk fwd1 left a) | None => fwd1 end in
+    let fwd3 := match rrem with
+                | Some a => match add_item leq req lhash rhash lfmt rk fwd2 left a with
+                            | AOk m' _ _ => m' | ARaise _ => fwd2 end
+                | None => fwd2 end in
+    wf leq req lhash rk fwd3 /\ (forall k a, rel leq req fwd3 k a = rel leq req m k a) /\
+    stable_or_cleared leq m fwd3.
+  Proof.
+    intros m left right fwd1 rrem radd W [W1 [R1 [K1 [Hl [Hhv [Rm1 [Rn1 [Ad1 [An1 [Ann1 S1]]]]]]]]]] fwd2 fwd3.
+    assert (Hcong : forall k a, leq left k = true -> rel leq req m left a = rel leq req m k a).
+    { intros k a E. apply rel_congr_k; auto. }
+    destruct radd as [a0|].
+    - pose proof (Ad1 a0 eq_refl) as Ha0. subst a0.
+      destruct (rm_fwd_ok fwd1 left right W1 Hl Hhv) as [m2 [E2 [W2 [R2 S2]]]].
+      assert (Hf2 : fwd2 = m2) by (unfold fwd2; now rewrite E2). clearbody fwd2. subst fwd2.
+      destruct rrem as [s|].
+      + destruct (Rm1 s eq_refl) as [Hsrk [Hsv Hsrel]].
+        assert (R2' : forall k a, rel leq req m2 k a = if leq left k then false else rel leq req m k a).
+        { intros k a. rewrite R2, R1. destruct (leq left k) eqn:E; cbn; [|now rewrite andb_true_r].
+          rewrite Hsrk. cbn. rewrite orb_false_r. now destruct (req right a). }
+        unfold fwd3.
+        destruct (add_item leq req lhash rhash lfmt rk m2 left s) as [m3 rem3 add3|e] eqn:E3.
+        * destruct (add_item_spec leq req lhash rhash lfmt EL ER HLH rk m2 left s m3 rem3 add3 W2 E3)
+            as [W3 [R3 [_ [_ [_ [_ [_ [_ [_ [_ S3]]]]]]]]]].
+          split; [exact W3|split].
+          -- intros k a. rewrite R3. destruct (leq left k) eqn:E.
+             ++ rewrite R2', (eq_refl_b _ EL), andb_false_r, orb_false_r.
+                rewrite <- (Hcong k a E). symmetry. apply Hsrel.
+             ++ rewrite R2', E. reflexivity.
+          -- eapply soc_trans; [exact S1|]. eapply soc_trans; [exact S2|exact S3].
+        * exfalso. apply add_item_raise in E3; auto. destruct E3 as [E3|[[E3 _]|[_ [s' [E3 _]]]]].
+          -- congruence.
+          -- destruct rk; discriminate.
+          -- rewrite R2', (eq_refl_b _ EL) in E3. discriminate.
+      + unfold fwd3. split; [exact W2|split].
+        * intros k a. rewrite R2, R1. destruct (leq left k) eqn:E; cbn; [|now rewrite andb_true_r].
+          assert (Hnv : rel leq req m left right = false) by (apply Ann1; [discriminate|reflexivity]).
+          rewrite <- (Hcong k a E).
+          destruct (req right a) eqn:Era; cbn.
+          -- rewrite <- (rel_congr_a leq req ER m left right a Era). now rewrite Hnv.
+          -- rewrite andb_true_r. destruct (is_single rk) eqn:Hs; cbn; [|reflexivity].
+             destruct (rel leq req m left a) eqn:Hra; [|reflexivity].
+             rewrite (eq_sym_b _ ER), (Rn1 eq_refl eq_refl a Hra) in Era. discriminate.
+        * eapply soc_trans; [exact S1|exact S2].
+    - destruct (An1 eq_refl) as [-> Hv]. unfold fwd3, fwd2. split; [exact W1|split; [|exact S1]].
+      intros k a. rewrite R1. destruct (leq left k) eqn:E; [|reflexivity].
+      rewrite <- (Hcong k a E).
+      destruct (req right a) eqn:Era; cbn.
+      + rewrite <- (rel_congr_a leq req ER m left right a Era). now rewrite Hv.
+      + destruct (is_single rk) eqn:Hs; cbn; [|reflexivity].
+        destruct (rel leq req m left a) eqn:Hra; [|reflexivity].
+        rewrite (eq_sym_b _ ER), (Rn1 eq_refl eq_refl a Hra) in Era. discriminate.
+  Qed.
+  Definition ins_rel (t : T) (left : L) (right : R) (l : L) (r : R) : bool :=
+    (if leq left l then (req right r || (negb (is_single rk) && fr t left r)) else fr t l r)
+    && negb (is_single lk && req right r && negb (leq left l)).
+
+  Lemma tw_insert_spec : forall t left right t' o, tw_inv t ->
+    tw_insert leq req lhash rhash lfmt rfmt lk rk t left right = (t', o) ->
+    tw_inv t' /\ stable_or_cleared leq (fwd t) (fwd t') /\ stable_or_cleared req (bwd t) (bwd t') /\
+    (o = Done -> lhash left = true /\ rhash right = true /\ forall l r, fr t' l r = ins_rel t left right l r) /\
+    (o <> Done -> forall l r, fr t' l r = fr t l r) /\
+    (forall e, o = Raise e -> lhash left = false \/ rhash right = false \/ rk = KStrict \/ lk = KStrict).
+  Proof.
+    intros t left right t' o [Wf [Wb C]] H. unfold tw_insert in H.
+    destruct (add_item leq req lhash rhash lfmt rk (fwd t) left right) as [fwd1 rrem radd|e1] eqn:E1.
+    2:{ inversion H; subst; clear H. split; [split; auto|]. split; [apply soc_refl|split; [apply soc_refl|]].
+        split; [discriminate|split; [reflexivity|]]. intros e He. inversion He; subst.
+        apply add_item_raise in E1; auto. destruct E1 as [E1|[[_ E1]|[E1 _]]]; auto. }
+    pose proof (add_item_spec leq req lhash rhash lfmt EL ER HLH rk (fwd t) left right fwd1 rrem radd Wf E1) as A1.
+    destruct (add_item req leq rhash lhash rfmt lk (bwd t) right left) as [bwd1 lrem ladd|e2] eqn:E2.
+    - pose proof (add_item_spec req leq rhash lhash rfmt ER EL HRH lk (bwd t) right left bwd1 lrem ladd Wb E2) as A2.
+      destruct A1 as [W1 [R1 [K1 [Hl [Hhv [Rm1 [Rn1 [Ad1 [An1 [Ann1 S1]]]]]]]]]].
+      destruct A2 as [W2 [R2 [K2 [Hr [Hhv2 [Rm2 [Rn2 [Ad2 [An2 [Ann2 S2]]]]]]]]]].
+      (* second halves of the two overwritten pairs are removed *)
+      assert (B2 : exists bwd2,
+        match rrem with Some a => rm_bwd leq req lhash rhash lk bwd1 a left | None => (bwd1, true) end = (bwd2, true) /\
+        wf req leq rhash lk bwd2 /\ stable_or_cleared req bwd1 bwd2 /\
+        forall k a, rel req leq bwd2 k a = rel req leq bwd1 k a &&
+                     negb (match rrem with Some s => req s k && leq left a | None => false end)).
+      { destruct rrem as [s|].
+        - destruct (Rm1 s eq_refl) as [_ [_ Hsrel]].
+          assert (Hs : rhash s = true).
+          { apply (fr_hash t left s); [split; auto|]. unfold fr. rewrite Hsrel. apply (eq_refl_b _ ER). }
+          destruct (rm_bwd_ok bwd1 s left W2 (fun _ => Hl) Hs) as [m2 [Ea [Wa [Ra Sa]]]].
+          exists m2. auto.
+        - exists bwd1. split; [reflexivity|split; [exact W2|split; [apply soc_refl|]]].
+          intros k a. now rewrite andb_true_r. }
+      destruct B2 as [bwd2 [EB [WB [SB RB]]]]. rewrite EB in H. cbn [negb] in H.
+      assert (F2 : exists fwd2,
+        match lrem with Some a => rm_fwd leq req lhash rhash rk fwd1 a right | None => (fwd1, true) end = (fwd2, true) /\
+        wf leq req lhash rk fwd2 /\ stable_or_cleared leq fwd1 fwd2 /\
+        forall k a, rel leq req fwd2 k a = rel leq req fwd1 k a &&
+                     negb (match lrem with Some s => leq s k && req right a | None => false end)).
+      { destruct lrem as [s|].
+        - destruct (Rm2 s eq_refl) as [_ [_ Hsrel]].
+          assert (Hs : lhash s = true).
+          { apply (fr_hash t s right); [split; auto|]. rewrite C. unfold br. rewrite Hsrel. apply (eq_refl_b _ EL). }
+          destruct (rm_fwd_ok fwd1 s right W1 Hs (fun _ => Hr)) as [m2 [Ea [Wa [Ra Sa]]]].
+          exists m2. auto.
+        - exists fwd1. split; [reflexivity|split; [exact W1|split; [apply soc_refl|]]].
+          intros k a. now rewrite andb_true_r. }
+      destruct F2 as [fwd2 [EF [WF [SF RF]]]]. rewrite EF in H. inversion H; subst; clear H.
+      (* the forward relation after the insert *)
+      assert (HF : forall l r, fr (mkTwm fwd2 bwd2) l r = ins_rel t left right l r).
+      { intros l r. unfold fr, ins_rel. cbn [fwd]. rewrite RF, R1. fold (fr t left r). fold (fr t l r).
+        destruct (leq left l) eqn:El.
+        - cbn [negb]. rewrite andb_false_r. cbn [negb]. rewrite andb_true_r.
+          destruct lrem as [s|]; [|now rewrite andb_true_r].
+          destruct (Rm2 s eq_refl) as [_ [Hsv _]].
+          rewrite <- (eq_trans_f2 leq EL left l s El), Hsv. cbn. now rewrite andb_true_r.
+        - cbn [negb]. rewrite andb_true_r.
+          assert (HFr : req right r = true -> fr t l r = br t right l).
+          { intros Er. rewrite C. unfold br. symmetry. apply rel_congr_k; auto. }
+          destruct lrem as [s|].
+          + destruct (Rm2 s eq_refl) as [Hslk [_ Hsrel]]. rewrite Hslk. cbn [andb].
+            destruct (req right r) eqn:Er; cbn [andb negb]; [|now rewrite andb_false_r].
+            rewrite andb_true_r, andb_false_r, (HFr eq_refl). unfold br. rewrite Hsrel.
+            now destruct (leq s l).
+          + cbn [negb]. rewrite andb_true_r.
+            destruct (is_single lk) eqn:Hslk; cbn [andb negb]; [|now rewrite andb_true_r].
+            destruct (req right r) eqn:Er; cbn [negb]; [|now rewrite andb_true_r].
+            rewrite andb_false_r. rewrite (HFr eq_refl).
+            destruct (br t right l) eqn:Hb; [|reflexivity].
+            pose proof (Rn2 eq_refl eq_refl l Hb) as Hc. rewrite (eq_sym_b _ EL) in Hc. congruence. }
+      assert (HB : forall r l, br (mkTwm fwd2 bwd2) r l =
+         (if req right r then (leq left l || (negb (is_single lk) && br t right l)) else br t r l)
+         && negb (is_single rk && leq left l && negb (req right r))).
+      { intros r l. unfold br. cbn [bwd]. rewrite RB, R2. fold (br t right l). fold (br t r l).
+        destruct (req right r) eqn:Er.
+        - cbn [negb]. rewrite andb_false_r. cbn [negb]. rewrite andb_true_r.
+          destruct rrem as [s|]; [|now rewrite andb_true_r].
+          destruct (Rm1 s eq_refl) as [_ [Hsv _]].
+          rewrite <- (eq_trans_f2 req ER right r s Er), Hsv. cbn. now rewrite andb_true_r.
+        - cbn [negb]. rewrite andb_true_r.
+          assert (HFr : leq left l = true -> br t r l = fr t left r).
+          { intros El. rewrite <- C. unfold fr. symmetry. apply rel_congr_k; auto. }
+          destruct rrem as [s|].
+          + destruct (Rm1 s eq_refl) as [Hsrk [_ Hsrel]]. rewrite Hsrk. cbn [andb].
+            destruct (leq left l) eqn:El; cbn [andb negb]; [|now rewrite andb_false_r].
+            rewrite andb_true_r, andb_false_r, (HFr eq_refl). unfold fr. rewrite Hsrel.
+            now destruct (req s r).
+          + cbn [negb]. rewrite andb_true_r.
+            destruct (is_single rk) eqn:Hsrk; cbn [andb negb]; [|now rewrite andb_true_r].
+            destruct (leq left l) eqn:El; cbn [negb]; [|now rewrite andb_true_r].
+            rewrite andb_false_r. rewrite (HFr eq_refl).
+            destruct (fr t left r) eqn:Hb; [|reflexivity].
+            pose proof (Rn1 eq_refl eq_refl r Hb) as Hc. rewrite (eq_sym_b _ ER) in Hc. congruence. }
+      split; [split; [exact WF|split; [exact WB|]]|].
+      { intros l r. rewrite HF, HB. unfold ins_rel.
+        destruct (leq left l) eqn:El; destruct (req right r) eqn:Er; cbn [negb andb orb];
+          rewrite ?andb_true_r, ?andb_false_r; cbn [negb andb orb]; rewrite ?andb_true_r.
+        - reflexivity.
+        - assert (X : fr t left r = br t r l).
+          { rewrite <- C. unfold fr. apply rel_congr_k; auto. }
+          rewrite X. now destruct (is_single rk), (br t r l).
+        - assert (X : br t right l = fr t l r).
+          { rewrite C. unfold br. apply rel_congr_k; auto. }
+          rewrite X. now destruct (is_single lk), (fr t l r).
+        - apply C. }
+      split; [eapply soc_trans; eauto|]. split; [eapply soc_trans; eauto|].
+      split; [intros _; split; [exact Hl|split; [exact Hr|exact HF]]|].
+      split; [intros X; congruence|discriminate].
+    - destruct (insert_rollback (fwd t) left right fwd1 rrem radd Wf A1) as [W3 [R3 S3]].
+      inversion H; subst; clear H.
+      split; [split; [exact W3|split; [exact Wb|]]|].
+      { intros l r. unfold fr. cbn [fwd]. rewrite R3. apply C. }
+      split; [exact S3|]. split; [apply soc_refl|].
+      split; [discriminate|]. split; [intros _ l r; unfold fr; cbn [fwd]; apply R3|].
+      intros e He. inversion He; subst.
+      apply add_item_raise in E2; auto. destruct E2 as [E2|[[_ E2]|[E2 _]]]; auto.
+  Qed.
+  Lemma tw_remove_spec : forall t left right t' o, tw_inv t ->
+    tw_remove leq req lhash rhash lk rk t left right = (t', o) ->
+    tw_inv t' /\ stable_or_cleared leq (fwd t) (fwd t') /\ stable_or_cleared req (bwd t) (bwd t') /\
+    (o = Done -> forall l r, fr t' l r = fr t l r && negb (leq left l && req right r)) /\
+    (o <> Done -> forall l r, fr t' l r = fr t l r).
+  Proof.
+    intros t left right t' o [Wf [Wb C]] H. unfold tw_remove, rm_fwd, rm_bwd in H.
+    destruct (remove_item leq req lhash rhash rk (fwd t) left right) as [fwd1|] eqn:E1.
+    2:{ cbn in H. inversion H; subst; clear H. split; [split; auto|].
+        split; [apply soc_refl|split; [apply soc_refl|]]. split; [discriminate|reflexivity]. }
+    destruct (remove_item_spec leq req lhash rhash EL ER HLH rk (fwd t) left right fwd1 Wf E1) as [W1 [R1 [Hl S1]]].
+    cbn [negb] in H.
+    destruct (remove_item req leq rhash lhash lk (bwd t) right left) as [bwd1|] eqn:E2.
+    - destruct (remove_item_spec req leq rhash lhash ER EL HRH lk (bwd t) right left bwd1 Wb E2) as [W2 [R2 [Hr S2]]].
+      inversion H; subst; clear H.
+      split; [split; [exact W1|split; [exact W2|]]|].
+      { intros l r. unfold fr, br. cbn [fwd bwd]. rewrite R1, R2. fold (fr t l r). fold (br t r l). rewrite C.
+        now rewrite (andb_comm (leq left l)). }
+      split; [exact S1|split; [exact S2|]]. split; [intros _ l r; apply R1|intros X; congruence].
+    - apply remove_item_raise in E2. inversion H; subst; clear H.
+      assert (Hnot : fr t left right = false).
+      { destruct (fr t left right) eqn:Hf; [|reflexivity]. exfalso.
+        destruct (fr_hash t left right (conj Wf (conj Wb C)) Hf) as [_ Hrr].
+        destruct E2 as [E2|[_ E2]]; congruence. }
+      assert (Hsame : forall l r, rel leq req fwd1 l r = fr t l r).
+      { intros l r. rewrite R1. fold (fr t l r).
+        destruct (leq left l) eqn:El; cbn; [|now rewrite andb_true_r].
+        destruct (req right r) eqn:Er; cbn; [|now rewrite andb_true_r].
+        rewrite andb_false_r. unfold fr. rewrite <- (rel_congr_k leq req EL (fwd t) left l r El).
+        rewrite <- (rel_congr_a leq req ER (fwd t) left right r Er). symmetry. exact Hnot. }
+      split; [split; [exact W1|split; [exact Wb|]]|].
+      { intros l r. unfold fr at 1. cbn [fwd]. rewrite Hsame. apply C. }
+      split; [exact S1|split; [apply soc_refl|]]. split; [discriminate|]. intros _ l r. apply Hsame.
+  Qed.
+
+  Lemma rm_each_bwd_spec : forall xs m left, wf req leq rhash lk m ->
+    (forall x, In x xs -> rhash x = true /\ lhash left = true) ->
+    exists m', rm_each_bwd leq req lhash rhash lk m xs left = (m', true) /\ wf req leq rhash lk m' /\
+      (forall k a, rel req leq m' k a = rel req leq m k a && negb (memb req k xs && leq left a)) /\
+      stable_or_cleared req m m'.
+  Proof.
+    induction xs as [|x xs IH]; intros m left W Hx; cbn [rm_each_bwd].
+    - exists m. split; [reflexivity|split; [exact W|split; [|apply soc_refl]]].
+      intros k a. cbn. now rewrite andb_true_r.
+    - destruct (Hx x (or_introl eq_refl)) as [Hrx Hll].
+      destruct (rm_bwd_ok m x left W (fun _ => Hll) Hrx) as [m1 [E1 [W1 [R1 S1]]]]. rewrite E1.
+      destruct (IH m1 left W1) as [m2 [E2 [W2 [R2 S2]]]]; [intros y Hy; apply Hx; right; exact Hy|].
+      exists m2. split; [exact E2|split; [exact W2|split; [|eapply soc_trans; eauto]]].
+      intros k a. rewrite R2, R1. cbn [memb]. destruct (req x k); cbn [andb negb orb].
+      + destruct (leq left a), (rel req leq m k a), (memb req k xs); reflexivity.
+      + now rewrite andb_true_r.
+  Qed.
+
+  Lemma rm_each_fwd_spec : forall xs m right, wf leq req lhash rk m ->
+    (forall x, In x xs -> lhash x = true /\ rhash right = true) ->
+    exists m', rm_each_fwd leq req lhash rhash rk m xs right = (m', true) /\ wf leq req lhash rk m' /\
+      (forall k a, rel leq req m' k a = rel leq req m k a && negb (memb leq k xs && req right a)) /\
+      stable_or_cleared leq m m'.
+  Proof.
+    induction xs as [|x xs IH]; intros m right W Hx; cbn [rm_each_fwd].
+    - exists m. split; [reflexivity|split; [exact W|split; [|apply soc_refl]]].
+      intros k a. cbn. now rewrite andb_true_r.
+    - destruct (Hx x (or_introl eq_refl)) as [Hlx Hrr].
+      destruct (rm_fwd_ok m x right W Hlx (fun _ => Hrr)) as [m1 [E1 [W1 [R1 S1]]]]. rewrite E1.
+      destruct (IH m1 right W1) as [m2 [E2 [W2 [R2 S2]]]]; [intros y Hy; apply Hx; right; exact Hy|].
+      exists m2. split; [exact E2|split; [exact W2|split; [|eapply soc_trans; eauto]]].
+      intros k a. rewrite R2, R1. cbn [memb]. destruct (leq x k); cbn [andb negb orb].
+      + destruct (req right a), (rel leq req m k a), (memb leq k xs); reflexivity.
+      + now rewrite andb_true_r.
+  Qed.
+  Lemma tw_remove_left_inv : forall t left t' o, tw_inv t ->
+    tw_remove_left leq req lhash rhash lk t left = (t', o) -> tw_inv t'.
+  Proof.
+    intros t left t' o [Wf [Wb C]] H. unfold tw_remove_left in H.
+    destruct (remove_key leq lhash (fwd t) left) as [[fwd1 removed]|] eqn:E1.
+    2:{ inversion H; subst. split; auto. }
+    destruct (remove_key_spec leq req lhash EL rk (fwd t) left fwd1 removed Wf E1) as [W1 [R1 [Hrem S1]]].
+    assert (Hx : forall x, In x removed -> rhash x = true /\ lhash left = true).
+    { intros x Hin. subst removed. apply (memb_In req ER) in Hin.
+      destruct (fr_hash t left x (conj Wf (conj Wb C)) Hin). auto. }
+    destruct (rm_each_bwd_spec removed (bwd t) left Wb Hx) as [bwd1 [E2 [W2 [R2 S2]]]].
+    rewrite E2 in H. inversion H; subst t' o; clear H.
+    split; [exact W1|split; [exact W2|]].
+    intros l r. unfold fr, br. cbn [fwd bwd]. rewrite R1, R2. fold (fr t l r). fold (br t r l). rewrite <- C.
+    destruct (leq left l) eqn:El; cbn; [|now rewrite andb_false_r].
+    rewrite andb_false_r, andb_true_r. subst removed. fold (rel leq req (fwd t) left r).
+    rewrite (rel_congr_k leq req EL (fwd t) left l r El). fold (fr t l r). now destruct (fr t l r).
+  Qed.
+
+  Lemma tw_remove_right_inv : forall t right t' o, tw_inv t ->
+    tw_remove_right leq req lhash rhash rk t right = (t', o) -> tw_inv t'.
+  Proof.
+    intros t right t' o [Wf [Wb C]] H. unfold tw_remove_right in H.
+    destruct (remove_key req rhash (bwd t) right) as [[bwd1 removed]|] eqn:E1.
+    2:{ inversion H; subst. split; auto. }
+    destruct (remove_key_spec req leq rhash ER lk (bwd t) right bwd1 removed Wb E1) as [W1 [R1 [Hrem S1]]].
+    assert (Hx : forall x, In x removed -> lhash x = true /\ rhash right = true).
+    { intros x Hin. subst removed. apply (memb_In leq EL) in Hin.
+      destruct (fr_hash t x right (conj Wf (conj Wb C))); [rewrite C; exact Hin|]. auto. }
+    destruct (rm_each_fwd_spec removed (fwd t) right Wf Hx) as [fwd1 [E2 [W2 [R2 S2]]]].
+    rewrite E2 in H. inversion H; subst t' o; clear H.
+    split; [exact W2|split; [exact W1|]].
+    intros l r. unfold fr, br. cbn [fwd bwd]. rewrite R1, R2. fold (fr t l r). fold (br t r l). rewrite C.
+    destruct (req right r) eqn:Er; cbn; [|now rewrite andb_false_r].
+    rewrite andb_false_r, andb_true_r. subst removed. fold (rel req leq (bwd t) right l).
+    rewrite (rel_congr_k req leq ER (bwd t) right r l Er). fold (br t r l). now destruct (br t r l).
+  Qed.
+
+  Lemma tw_step_inv : forall t o t' out, tw_inv t ->
+    tw_step leq req lhash rhash lfmt rfmt lk rk t o = (t', out) -> tw_inv t'.
+  Proof.
+    intros t o t' out I H. destruct o; cbn [tw_step] in H.
+    - eapply tw_insert_spec; eauto.
+    - eapply tw_remove_spec; eauto.
+    - eapply tw_remove_left_inv; eauto.
+    - eapply tw_remove_right_inv; eauto.
+    - inversion H. apply tw_inv_empty.
+  Qed.
+
+  Theorem tw_run_inv : forall ops t t' outs, tw_inv t ->
+    tw_run leq req lhash rhash lfmt rfmt lk rk t ops = (t', outs) -> tw_inv t'.
+  Proof.
+    induction ops as [|o ops IH]; intros t t' outs I H; cbn [tw_run] in H.
+    - inversion H; subst. exact I.
+    - destruct (tw_step leq req lhash rhash lfmt rfmt lk rk t o) as [t1 r] eqn:E1.
+      destruct (tw_run leq req lhash rhash lfmt rfmt lk rk t1 ops) as [t2 rs] eqn:E2.
+      inversion H; subst. eapply IH; [|exact E2]. eapply tw_step_inv; eauto.
+  Qed.
+End TwoWayFacts.
